@@ -115,7 +115,7 @@ func (e *Engine) callFunction(f *frame, fn *ssa.Function, args []Val, bindings [
 	if r, ok := e.stdModel(f, fn, args, pos); ok {
 		return r
 	}
-	if len(fn.Blocks) > 0 && (e.isSpecFunc(fn) || e.Transparent[fn] || !e.inRepo(fn) && e.stdInline(fn) || fn.Parent() != nil) {
+	if len(fn.Blocks) > 0 && (e.inInit && e.inRepo(fn) || e.isSpecFunc(fn) || e.Transparent[fn] || !e.inRepo(fn) && e.stdInline(fn) || fn.Parent() != nil) {
 		if !e.isSpecFunc(fn) && e.specDepth == 0 {
 			e.Inlined[fn.String()] = true
 		}
